@@ -93,10 +93,19 @@ TokensMatch(exp, got) == Len(exp) = Len(got) /\ \A j \in 1..Len(exp) : exp[j] = 
 \* (SPIR-V registry spir-v.xml, ids 0..15; the rendering of unregistered ids is not constrained)
 GeneratorNames == <<"The Khronos Group", "LunarG", "Valve", "Codeplay", "NVIDIA", "ARM", "LLVM/SPIR-V Translator",
                     "SPIR-V Tools Assembler", "Glslang", "Qualcomm", "AMD", "Intel", "Imagination", "Shaderc", "spiregg", "rspirv">>
-HeaderLinesOK(h, lines) ==
-  /\ Len(lines) >= 4
-  /\ lines[1] = "; SPIR-V"
-  /\ lines[2] = "; Version: " \o ToString(h.version[1] % 256) \o "." \o ToString(h.version[2] \div 256)
-  /\ (h.generator[1] < 16 => lines[3] = "; Generator: " \o GeneratorNames[h.generator[1] + 1])
-  /\ (Dec(h.bound) # AnyTok => lines[4] = "; Bound: " \o Dec(h.bound))
+\* the same names as token sequences (the header comment is judged on its tokens, not on its exact wording)
+GeneratorNameToks == << <<"The", "Khronos", "Group">>, <<"LunarG">>, <<"Valve">>, <<"Codeplay">>, <<"NVIDIA">>, <<"ARM">>,
+                        <<"LLVM/SPIR-V", "Translator">>, <<"SPIR-V", "Tools", "Assembler">>, <<"Glslang">>, <<"Qualcomm">>, <<"AMD">>,
+                        <<"Intel">>, <<"Imagination">>, <<"Shaderc">>, <<"spiregg">>, <<"rspirv">> >>
+RECURSIVE Concat(_, _, _)
+Concat(tokss, j, n) == IF j > n THEN <<>> ELSE tokss[j] \o Concat(tokss, j + 1, n)
+HasRun(toks, run) == \E i \in 1..(Len(toks) - Len(run) + 1) : SubSeq(toks, i, i + Len(run) - 1) = run
+\* "the header comment (version major.minor, generator tool name, id bound)": the nh leading comment lines carry the
+\* three facts as tokens; their wording, order and any further comment lines are free
+HeaderTokensOK(h, tokss, nh) ==
+  LET toks == Concat(tokss, 1, nh) IN
+  /\ nh >= 1
+  /\ HasRun(toks, <<ToString(h.version[1] % 256) \o "." \o ToString(h.version[2] \div 256)>>)
+  /\ (h.generator[1] < 16 => HasRun(toks, GeneratorNameToks[h.generator[1] + 1]))
+  /\ (Dec(h.bound) # AnyTok => HasRun(toks, <<Dec(h.bound)>>))
 =============================================================================
